@@ -7,6 +7,7 @@ param = import_param()
 
 class S(param.Parameterized):
     v = param.Integer(0)
+    w = param.Integer(1)
 
 
 class T(param.Parameterized):
@@ -38,6 +39,8 @@ class System:
         k = r["k"]
         if k == "param":
             return self.s[r["s"]].param.v
+        if k == "paramw":
+            return self.s[r["s"]].param.w
         if k == "bind1":
             return param.bind(_inc, self.s[r["s"]].param.v)
         if k == "bind2":
@@ -56,7 +59,14 @@ class System:
         try:
             if n == "source":
                 try:
-                    self.s[a["i"]].v = a["v"]
+                    so = self.s[a["i"]]
+                    if a["both"]:
+                        so.param.update(v=a["v"], w=a["w"])
+                    else:
+                        if so.v != a["v"]:
+                            so.v = a["v"]
+                        if so.w != a["w"]:
+                            so.w = a["w"]
                 except ValueError:
                     return "invalid"
             elif n == "ref":
@@ -81,11 +91,15 @@ class System:
         sync = getattr(type(t.param), "_sync_refs", None)
         for i, s in self.s.items():
             cnt = 0
-            for ws in s.param.watchers.get("v", {}).values():
-                for w in ws:
-                    f = w.fn
-                    if getattr(f, "__func__", None) is sync and getattr(f, "__self__", None) is not None and f.__self__.self is t:
-                        cnt += 1
+            seenw = []
+            for pn in ("v", "w"):
+                for ws in s.param.watchers.get(pn, {}).values():
+                    for w in ws:
+                        f = w.fn
+                        if getattr(f, "__func__", None) is sync and getattr(f, "__self__", None) is not None and f.__self__.self is t \
+                                and not any(w is x for x in seenw):
+                            seenw.append(w)
+                            cnt += 1
             watched.append((i, cnt))
         return {"val": {"p": t.p, "q": t.q, "r": rv}, "watched": watched}
 
